@@ -284,6 +284,12 @@ def run_monotone(job, res):
 
 def run(job):
     res = Result()
+    from mysensors.const import get_const
+
+    for v in reversed(spec.VERSIONS):      # later tables first: they must not alter the earlier ones
+        get_const(v)
+    for v in spec.VERSIONS:
+        get_const(v)
     {"headers": run_headers, "corpus": run_corpus, "child": run_child, "effect": run_effect,
      "random": run_random, "monotone": run_monotone}[job["kind"]](job, res)
     return res
